@@ -5,9 +5,13 @@
    component asks to be called back before the time of the tick it answers ([env_ok]) -- has
    produced the outputs [outs].  Handlers are atomic between suspensions (asyncio).  The nested
    scheduler's inner tick runs inside SystemComponent.on_tick, i.e. between the system's Input and
-   its Output: that containment is checked on whole nested simulations by the correspondence run
-   (oracle code 49).  Property theorems only. *)
-From TV Require Import Base Model.Wiring Model.Ticker Model.Master Proofs.MasterP.
+   its Output: on the whole-simulation model (Model/Sim.v, any configuration, any nesting depth) every
+   tick of every scheduler is logged when it starts, and [C04_inner_ticks_inside_outer_tick] shows that
+   everything a tick writes to that log -- the ticks of the system simulations below it, at any depth --
+   comes after its own entry and carries its time; the same containment is checked on whole nested
+   simulations of the real schedulers by the correspondence run (oracle code 49).
+   Property theorems only. *)
+From TV Require Import Base Model.Wiring Model.Ticker Model.Master Model.Component Model.Sim Proofs.MasterP Proofs.LogP.
 Open Scope Z_scope.
 
 (* no tick starts before the previous one has ended; every tick ends with its own time; every
@@ -33,6 +37,30 @@ Theorem C04_monotone : forall conns comps initial num den,
   0 < num -> 0 < den ->
   forall m now outs, MRun conns comps initial num den m now outs -> nondecr (tick_times outs).
 Proof. intros conns comps initial num den Hn Hd. apply run_monotone; assumption. Qed.
+
+(* a system simulation's inner tick lies wholly inside the outer tick that triggered it, at the same time:
+   a master tick of the whole-simulation model writes its own entry (top level, time, roots) and then only
+   entries -- of nested schedulers at any depth -- that carry the same time; likewise for the tick of any level *)
+Theorem C04_inner_ticks_inside_outer_tick : forall cfg devf f m when roots real,
+  exists l, s_log (m_s (do_tick cfg devf f m when roots real)) = s_log (m_s m) ++ (top, when, roots) :: l /\
+            forall e, In e l -> log_time e = when.
+Proof. intros. apply do_tick_logs. Qed.
+
+Theorem C04_nested_tick_one_time : forall cfg devf f lv time chg s,
+  exists l, s_log (fst (fst (fst (on_tick_level cfg devf f lv time chg s)))) = s_log s ++ l /\
+            forall e, In e l -> log_time e = time.
+Proof. intros cfg devf f lv time chg s. exact (on_tick_level_logs cfg devf f lv time chg s). Qed.
+
+Example C04_nested_example :
+  let cfg : config :=
+    [(1%positive, {| l_order := [(3%positive, KDev); (4%positive, KSys 2%positive)]; l_conns := [(3, 1, 4, 1)]%positive |});
+     (2%positive, {| l_order := [(5%positive, KDev); (6%positive, KSys 3%positive)]; l_conns := [(1, 1, 5, 1); (5, 1, 6, 1)]%positive |});
+     (3%positive, {| l_order := [(7%positive, KDev)]; l_conns := [(1, 1, 7, 1)]%positive |})] in
+  let devf : devfun := fun c n t i => ([(1%positive, n)], Some (t + 10)) in
+  let m := {| m_s := s_init; m_tprev := 0; m_real := 0; m_now := 0; m_obs := []; m_ticks := [] |} in
+  map (fun e : positive * Z * list comp => (fst (fst e), snd (fst e))) (s_log (m_s (do_tick cfg devf 8 m 5 [3%positive; 4%positive] 0)))
+  = [(1%positive, 5); (2%positive, 5); (3%positive, 5)].
+Proof. vm_compute. reflexivity. Qed.
 
 Example C04_nonvacuous :
   let '(m1, o1) := step [] [3%positive] 0 1 1 (m_init 0) 5 IStart in
